@@ -161,8 +161,9 @@ type opPlan struct {
 	NewRoot bool
 }
 type plan struct {
-	Ops  []opPlan
-	Gens [][2]string // hex trace id, hex span id
+	Ops      []opPlan
+	Gens     [][2]string // hex trace id, hex span id
+	Blocking bool        // batch processor built WithBlocking (enqueueBlockOnQueueFull) or not (enqueueDrop)
 }
 
 type spanObs struct {
@@ -254,7 +255,11 @@ func runProgram(s *samp, p plan) progObs {
 	rec := &recorder{}
 	gen := &planGen{plan: p.Gens}
 	e1, e2 := &idExporter{}, &idExporter{}
-	bsp := sdktrace.NewBatchSpanProcessor(e2, sdktrace.WithBatchTimeout(time.Hour), sdktrace.WithMaxQueueSize(4096), sdktrace.WithMaxExportBatchSize(512))
+	bopts := []sdktrace.BatchSpanProcessorOption{sdktrace.WithBatchTimeout(time.Hour), sdktrace.WithMaxQueueSize(4096), sdktrace.WithMaxExportBatchSize(512)}
+	if p.Blocking {
+		bopts = append(bopts, sdktrace.WithBlocking())
+	}
+	bsp := sdktrace.NewBatchSpanProcessor(e2, bopts...)
 	opts := []sdktrace.TracerProviderOption{sdktrace.WithIDGenerator(gen),
 		sdktrace.WithSpanProcessor(sdktrace.NewSimpleSpanProcessor(e1)), sdktrace.WithSpanProcessor(bsp)}
 	if s != nil {
@@ -554,6 +559,7 @@ func genCtx(r *vgen.Rand, ratios []uint64) ctxPlan {
 
 func genPlan(r *vgen.Rand, n int, ratios []uint64) plan {
 	var p plan
+	p.Blocking = r.Bool()
 	if len(ratios) == 0 {
 		ratios = []uint64{bitsOf(0.5)}
 	}
